@@ -51,7 +51,16 @@ class Prov:
             key = norm(pat.get("ctor_of") or pat.get("def"))
             for i, p in enumerate(pat["ps"]):
                 self._bind_rec(p, src, extra | {("variant", key)})
-        elif k in ("Or", "Tuple"):
+        elif k == "Tuple":
+            es = src.get("es") if isinstance(src, dict) and src.get("k") == "Tup" else None
+            if es is not None and len(es) == len(pat["ps"]) and "ddpos" not in pat:
+                # element-wise: (a, b) <- (x, y)
+                for p, e in zip(pat["ps"], es):
+                    self._bind_rec(p, e, extra)
+            else:
+                for p in pat["ps"]:
+                    self._bind_rec(p, src, extra)
+        elif k == "Or":
             for p in pat["ps"]:
                 self._bind_rec(p, src, extra)
         elif k in ("Box", "Deref", "Ref", "Guard"):
